@@ -173,7 +173,7 @@ def rstmts(ss, ind, style):
             lhs = s['lhs']
             out.append(f"{pad}{rx(lhs)} = {rx(s['rhs'])}")
         elif k == 'if':
-            if len(s['conds']) == 1 and not s['els'] and len(s['bodies'][0]) == 1 and s['bodies'][0][0]['s'] in ('assign', 'exit', 'cycle', 'call', 'print') and s.get('inline'):
+            if len(s['conds']) == 1 and not s['els'] and len(s['bodies'][0]) == 1 and s['bodies'][0][0]['s'] in ('assign', 'exit', 'cycle', 'call', 'print', 'prints') and s.get('inline'):
                 out.append(f"{pad}if ({rx(s['conds'][0])}) " + rstmts(s['bodies'][0], 0, style)[0])
                 continue
             for i, (c, b) in enumerate(zip(s['conds'], s['bodies'])):
@@ -211,6 +211,8 @@ def rstmts(ss, ind, style):
             out.append(f"{pad}call {s['name']}({', '.join(rx(a) for a in s['args'])})")
         elif k == 'print':
             out.append(f"{pad}print *, {', '.join(rx(i) for i in s['items'])}")
+        elif k == 'prints':
+            out.append(f"{pad}print '(A)', '" + s['text'].replace("'", "''") + "'")
         elif k == 'assoc':
             pairs = ', '.join(f'{n} => {rx(t)}' for n, t in zip(s['names'], s['targets']))
             out.append(f'{pad}associate ({pairs})')
@@ -345,6 +347,19 @@ def driver_text(prog, entry, inputs, modname='kmod'):
     return '\n'.join(L) + '\n'
 
 
+def text_code(text):
+    """Encoding of a printed character string as a small integer (position-weighted character sum)."""
+    return sum((i % 97 + 1) * ord(c) for i, c in enumerate(text)) % 29989
+
+
+def prints(text):
+    return {'s': 'prints', 'text': text, 'code': text_code(text), 'len': len(text)}
+
+
+STRINGS = ['#even   value:', '#a  b', "#it's", '#call foo(x)  ! not a comment', '#x = y + 1', '#if (a) then', '#tab\there', '#a & b &', '#  lead',
+           '#end do', '#use mod, only: x', '#1.0e-3   2.5', '#.lt. .GT.']
+
+
 def _tok_value(tok):
     """One list-directed output token of the kernel's own PRINT statements."""
     if tok in ('T', 'F'):
@@ -361,8 +376,12 @@ def parse_output(text, nruns):
     cur = None
     mode = None
     vals = []
-    for line in text.splitlines():
-        line = line.strip()
+    for raw in text.splitlines():
+        line = raw.strip()
+        if raw.startswith('#') and cur is not None and mode == 'print':
+            vals.append(['str', text_code(raw), len(raw)])
+            runs[cur] = vals
+            continue
         if line.startswith('@@RUN'):
             cur = int(line.split()[1])
             mode = 'print'
@@ -544,6 +563,8 @@ class Gen:
             kinds += ['fcall']
         if 'assoc' in self.f and self.assoc_depth < 2:
             kinds += ['assoc', 'assoc']
+        if 'strings' in self.f:
+            kinds += ['prints']
         if d <= 0:
             kinds = [k for k in kinds if k not in ('if', 'do', 'select', 'while')]
         k = rng.choice(kinds)
@@ -628,6 +649,11 @@ class Gen:
             return [assign(V(rng.choice(writable)), self.bounded(op('sum', call(fn['name'], *[self.int_expr(1, scal) for _ in fn['args']]), self.int_leaf(scal))))]
         if k == 'section':
             return self.section_stmt()
+        if k == 'prints':
+            st = prints(rng.choice(STRINGS))
+            if rng.random() < 0.5:
+                return [{'s': 'if', 'conds': [self.cond(scal)], 'bodies': [[st]], 'els': [], 'inline': True}]
+            return [st]
         if k == 'assoc':
             return self.assoc_stmt(d)
         return []
